@@ -29,6 +29,7 @@ import (
 	"k8s.io/apimachinery/pkg/api/resource"
 	metav1 "k8s.io/apimachinery/pkg/apis/meta/v1"
 	"k8s.io/apimachinery/pkg/types"
+	"k8s.io/client-go/tools/cache"
 	"k8s.io/klog/v2"
 	"k8s.io/utils/ptr"
 	"pgregory.net/rapid"
@@ -645,6 +646,15 @@ func c07GenRequest(t *rapid.T, h c07Hints, memMode int) c07Request {
 	return req
 }
 
+// c07DeleteEvent is what the informer hands to the delete handler: the last known object, or - when the deletion itself
+// was missed (watch gap, re-list) - client-go's tombstone, which is delivered BY VALUE.
+func c07DeleteEvent(pod *corev1.Pod, tombstone bool) interface{} {
+	if tombstone {
+		return cache.DeletedFinalStateUnknown{Key: pod.Namespace + "/" + pod.Name, Obj: pod}
+	}
+	return pod
+}
+
 func c07NewPod(name string, req corev1.ResourceList) *corev1.Pod {
 	return &corev1.Pod{
 		ObjectMeta: metav1.ObjectMeta{Namespace: "default", Name: name, UID: types.UID(name)},
@@ -982,7 +992,7 @@ func TestVerifC07History(t *testing.T) {
 		capacityHolds := true
 		var released []*c07Live
 		var completed []*c07Live // pods that reached a terminal phase and whose object still exists (not yet deleted)
-		var sawCompletedUpdate, sawTerminatedAdd bool
+		var sawCompletedUpdate, sawTerminatedAdd, sawTombstone bool
 		var sawShare, sawMulti, sawUnhealthy, sawLossUnderPods, sawRefused, sawSuccess, sawDup, sawTwice, sawChanged, sawDeleted bool
 		var ntDupThenRelease, ntRefreshBetween bool
 		for _, d := range w.inv {
@@ -1162,8 +1172,10 @@ func TestVerifC07History(t *testing.T) {
 				p := w.live[rapid.SampledFrom(w.liveNames()).Draw(t, "pod")]
 				switch rapid.IntRange(0, 4).Draw(t, "releaseVia") {
 				case 0:
-					w.cache.onPodDelete(p.Bound)
-					note("podDelete " + p.Name)
+					tomb := len(hist)%2 == 1 // no draw: keeps the draw sequence of this test stable
+					w.cache.onPodDelete(c07DeleteEvent(p.Bound, tomb))
+					sawTombstone = sawTombstone || tomb
+					note(fmt.Sprintf("podDelete %s tombstone=%v", p.Name, tomb))
 				case 1, 4:
 					done := p.Bound.DeepCopy()
 					done.Status.Phase = rapid.SampledFrom([]corev1.PodPhase{corev1.PodSucceeded, corev1.PodFailed}).Draw(t, "phase")
@@ -1271,7 +1283,9 @@ func TestVerifC07History(t *testing.T) {
 					if p.Done != nil {
 						last = p.Done
 					}
-					w.cache.onPodDelete(last)
+					tomb := len(hist)%2 == 1
+					w.cache.onPodDelete(c07DeleteEvent(last, tomb))
+					sawTombstone = sawTombstone || tomb
 					for i, q := range completed { // the object is gone: no further events for it
 						if q == p {
 							completed = append(append([]*c07Live{}, completed[:i]...), completed[i+1:]...)
@@ -1430,6 +1444,7 @@ func TestVerifC07History(t *testing.T) {
 		c.ClassIf(sawTwice, "release-twice")
 		c.ClassIf(sawChanged, "allocation-changed-by-update")
 		c.ClassIf(sawDeleted, "device-cr-deleted")
+		c.ClassIf(sawTombstone, "delete-delivered-as-tombstone")
 		c.ClassIf(sawCompletedUpdate, "update-of-already-completed-pod")
 		c.ClassIf(sawTerminatedAdd, "add-of-already-terminated-pod")
 		c.ClassIf(ntDupThenRelease, "nt:duplicate-then-release")
